@@ -439,6 +439,7 @@ func init() {
 	reg("(github.com/tokenized/pkg/bitcoin.Signature).Verify", "uninterpreted: Verify(sig, hash, key)", nil, pureUF("uf!SigVerify"))
 	reg("(*github.com/tokenized/pkg/bitcoin.Signature).Verify", "uninterpreted: Verify(sig, hash, key)", nil, pureUF("uf!SigVerify"))
 	reg("time.After", "a channel (opaque)", nil, pureOpaque)
+	reg("time.Sleep", "no effect on the modelled state", nil, pureOpaque)
 	reg("math/rand.Uint64", "an unconstrained number; writes nothing in the modelled heap", nil, pureOpaque)
 	reg("(time.Duration).Nanoseconds", "pure", nil, pureUF("uf!durationNanos"))
 	// merkle validity of a block message: one uninterpreted predicate over the block value, whichever way it is called
